@@ -554,10 +554,14 @@ func genConcPlan(r *rand.Rand, tier string) *vfPlan {
 		if chance(r, 0.4) {
 			group[1] = vfStep{Op: "newbootstrap", User: "mallory"}
 		}
-	case 2:
+	case 2, 5:
 		// the same hardware-token assertion delivered twice
 		p.Steps = append(p.Steps, vfStep{Op: "u2fsignreq", Sess: "a1"})
 		group = []vfStep{{Op: "u2fsignresp", Sess: "a1", Target: "tok1"}, {Op: "u2fsignresp", Sess: "a2", Target: "tok1", A: "sess:a1"}}
+		if chance(r, 0.5) {
+			// ... while the user also asks for a fresh challenge
+			group = append(group, vfStep{Op: pick(r, []string{"u2fsignreq", "u2fsignreq", "webauthn_begin"}), Sess: pick(r, []string{"a1", "a2"})})
+		}
 	case 4:
 		// error paths of the hardware-token login racing other users of the challenge table
 		p.Steps = append(p.Steps, vfStep{Op: "webauthn_begin", Sess: "a1"})
